@@ -15,6 +15,7 @@ from __future__ import annotations
 import itertools
 import json
 import random
+import re
 
 from lib import common
 from lib.common import dec_list
@@ -50,6 +51,11 @@ def _sql(st: str, rnd: random.Random) -> str:
     if k == "u":
         t, kk, v = st[1:].split(".")
         return f"update t{t} set v = {v} where k = {kk}"
+    if st.startswith("fm"):
+        t = st[2:] or "0"
+        # a MERGE (fakesnow runs it as several engine statements) whose clauses name a missing column: fails after its first part
+        return (f"merge into t{t} using (select 1 as k, 1 as v) as src on t{t}.k = src.k when matched then update set nocol = src.v "
+                f"when not matched then insert (k, nocol) values (src.k, src.v)")
     if st == "ft":
         return "select k from t_missing"
     if st == "fc":
@@ -181,6 +187,11 @@ CORE_SCRIPTS = [
     ["b", "i@.7.7", "c", "s#"],
     ["s#", "b", "s#", "r"],
     ["b", "i@.8.8", "r", "c"],
+    # a multi-part statement failing in autocommit must not leave anything open: later DML is committed at once and
+    # ROLLBACK / COMMIT stay no-ops
+    ["fm@", "i@.1.1", "r", "s@"],
+    ["fm@", "u@.9.4", "c", "d@.9"],
+    ["b", "fm@", "i@.3.3", "c"],
 ]
 # scripts with a statement in a known-defect region
 FINDING_SCRIPTS = [
@@ -242,7 +253,7 @@ def _random_script(rnd, c: int, n: int, envelope: bool) -> list[str]:
         elif r < 0.89:
             out.append(f"u{c}.{rnd.choice([0, 1, 2, 3, 9])}.{rnd.randrange(10)}")
         elif r < 0.93:
-            out.append(rnd.choice(["ft", "fc"]))
+            out.append(rnd.choice(["ft", "fc"] + ([] if intx else [f"fm{c}"])))   # MERGE only in autocommit here (see _merge_clash)
         elif r < 0.96:
             out.append("k")
         elif envelope:
@@ -291,6 +302,7 @@ def _cases(chk) -> list[dict]:
     fixed = [
         (CORE_SCRIPTS[0], CORE_SCRIPTS[3]), (CORE_SCRIPTS[1], CORE_SCRIPTS[0]), (CORE_SCRIPTS[5], CORE_SCRIPTS[3]),
         (FINDING_SCRIPTS[0], CORE_SCRIPTS[10]), (FINDING_SCRIPTS[1], CORE_SCRIPTS[10]),
+        (CORE_SCRIPTS[12], CORE_SCRIPTS[10]), (CORE_SCRIPTS[13], CORE_SCRIPTS[3]), (CORE_SCRIPTS[14], CORE_SCRIPTS[0]),
     ]
     for a, b in fixed:
         order = [0] * len(a) + [1] * len(b)
@@ -299,7 +311,15 @@ def _cases(chk) -> list[dict]:
     # A. exhaustive statement-level interleavings of script pairs
     pairs = [(a, b) for a in range(len(CORE_SCRIPTS)) for b in range(len(CORE_SCRIPTS))]
     rnd.shuffle(pairs)
-    npairs = 20 if quick else len(pairs)
+    npairs = 16 if quick else len(pairs)
+    # envelope: a MERGE inside a transaction is not overlapped with another connection's MERGE – fakesnow records a (bogus)
+    # comment row for the temporary MERGE_CANDIDATES table in `_fs_tables_ext`, so two such transactions write the same
+    # primary key and the later COMMIT fails (observed; reported in design/C13.md; the user-level writes are disjoint)
+    def _merge_clash(x, y):
+        intx = lambda sc: "b" in sc and any(t.startswith("fm") for t in sc[sc.index("b"):])  # noqa: E731
+        has = lambda sc: any(t.startswith("fm") for t in sc)  # noqa: E731
+        return (intx(x) and has(y)) or (intx(y) and has(x))
+    pairs = [(ia, ib) for ia, ib in pairs if not _merge_clash(CORE_SCRIPTS[ia], CORE_SCRIPTS[ib])]
     for pi, (ia, ib) in enumerate(pairs[:npairs]):
         a, b = _inst(CORE_SCRIPTS[ia], 0), _inst(CORE_SCRIPTS[ib], 1)
         policy = ("dense", "others", "sparse", "others")[pi % 4] if quick else None
@@ -331,7 +351,8 @@ def _cases(chk) -> list[dict]:
 
 def _line(case, shared=False) -> str:
     init = "|".join(",".join(f"{a}.{b}" for a, b in t) for t in case["init"])
-    return "\t".join(["tx", "run", "1" if shared else "0", init, ";".join(case["events"])])
+    evs = [re.sub(r":fm\d*$", ":fm", e) for e in case["events"]]
+    return "\t".join(["tx", "run", "1" if shared else "0", init, ";".join(evs)])
 
 
 def _norm_model(ev: str, o: str) -> str:
